@@ -607,13 +607,6 @@ macro_rules! fg3_cut {
         }
     };
 }
-//@ props: C10 C02
-//@ tier: thorough
-//@ stubs: yes
-//@ functions: v3::Codec::decode across consecutive calls (all arms, state carried between calls), decode::publish_size, decode_publish_packet
-//@ bounds: every stream of 5 arbitrary bytes cut at every position into two reads; min_chunk_size 0..=4; up to 3 decode calls per read
-//@ unwindset: utf8_is_valid=6 spec_fixed=6 decode_variable_length_cursor=6 extend_from_slice=8 Decoder>::decode=4
-//@ assumes: non-PUBLISH body decoders replaced by an arbitrary-result stub; payload beyond the stream is modelled by frames whose Remaining Length exceeds the 5 bytes
-//@ mem: 40  timeout: 3000
-//@ desc: the items obtained from a stream explain exactly the stream, in order, for every cut: each PUBLISH announced once with its declared size, payload pieces byte-identical to the stream and summing to at most the declared size, exactly one final piece, no payload byte leaks into the next packet, nothing complete is withheld after a drain
-fg3_cut!(fg3_cut_5, 5, 3);
+// (no instance of fg3_cut! is registered: the 5-byte / 6-call instance exhausted 40 GB in CBMC's
+// propositional reduction, the 6-byte one did not finish symbolic execution; see DESIGN.md section 4 C10)
+
